@@ -313,3 +313,18 @@ func VGetLowestPathInfo(paths Paths64) (int, bool) {
 	g := &Group{inPaths: paths}
 	return g.GetLowestPathInfo()
 }
+
+// VInsertScanline / VPopScanline run the real scanline-list operations on the given list.
+func VInsertScanline(list []int64, y int64) []int64 {
+	c := newClipperBase()
+	c.scanlineList = append([]int64{}, list...)
+	c.insertScanline(y)
+	return c.scanlineList
+}
+
+func VPopScanline(list []int64) (int64, []int64, bool) {
+	c := newClipperBase()
+	c.scanlineList = append([]int64{}, list...)
+	y, ok := c.popScanline()
+	return y, c.scanlineList, ok
+}
